@@ -24,7 +24,7 @@ var otelOverride bool
 
 func init() {
 	Register(&Prop{
-		ID: "C12", Engine: "A", Quick: 3000, Thorough: 150000, Level: "exploration", AltEvery: 4,
+		ID: "C12", Engine: "A", Quick: 10000, Thorough: 150000, Level: "exploration", AltEvery: 4,
 		Rule:     "race build of the simulator (go test -race; the scheduler's own hand-offs are hidden from the detector with runtime.RaceDisable so that they add no happens-before edges): each run plays one scenario of the C03 (responses with telemetry), C04 (faults), C09 (streamed insert with progress), C10 (cancellation) or C11 (pool users and health checker) families, or a query with Client.Close called from a foreign goroutine at a drawn decision, with OpenTelemetry instrumentation on or off, under a seeded schedule; a violation is a race report whose two accesses both have their innermost frame in the library; distinct = schedule digests; non-trivial = at least one context switch",
 		Run:      runC12,
 		OnStderr: racesFromStderr,
@@ -75,6 +75,7 @@ func runRaceQuery(t *testing.T, c *choice.Stream, r *Result, opt RunOpt) {
 		if cf.ReadTimeout < 0 {
 			cf.ReadTimeout = 0 // the disturbances here are placed by decision count, which needs the client's timers to keep decisions coming
 		}
+		cf.DebugLog = cf.DebugLog || c.Bool("debuglog.more", 1, 3) // the debug branches take pooled entries from the logger
 		sc := drawQueryScenario(c, cf)
 		if c.Bool("ext", 1, 3) {
 			// external data, with the table name given or left to the default: one
@@ -124,6 +125,11 @@ func runRaceQuery(t *testing.T, c *choice.Stream, r *Result, opt RunOpt) {
 		}
 		srv := simnet.NewServer(cf.ServerRev, script)
 		conn := e.W.NewConn(srv)
+		if c.Bool("backpressure", 1, 3) {
+			// the sender sits inside Write while the receiver handles packets, and
+			// goes on from there (to its logger, to its buffers) when the write ends
+			conn.Window = c.Pick("window", 16, 64, 512)
+		}
 		var conn2 *simnet.Conn
 		if fault == "foreign_close" && c.Bool("redial", 1, 2) {
 			srv2 := simnet.NewServer(cf.ServerRev, cf.HandshakeSteps())
